@@ -2,6 +2,7 @@ import IslaVerif.Driver.Decode
 import IslaVerif.Driver.C04
 import IslaVerif.Driver.C15
 import IslaVerif.Model.Sem
+import IslaVerif.Model.Certify
 namespace IslaVerif.Driver.SemD
 open IslaVerif Sexp Driver Sem
 
@@ -72,6 +73,18 @@ def handle : List Sexp → Sexp
     | some g, some ts, some f, some env, some bound =>
       .list (ts.map fun t => encTV (evalRef { g := g, root := t, isNT := C04.isNT, intBound := bound } env f))
     | _, _, _, _, _ => bad
+  -- the solution certifier: (valid closed rootOk verdict)
+  | [.atom "certify", g, t, f, startSym, const, bound] =>
+    match decodeGrammar g, decodeTree t, decodeFm f, asStr? startSym, asStr? const, asNat? bound with
+    | some g, some t, some f, some a, some c, some bound =>
+      let fl := certFlags { g := g, root := t, isNT := C04.isNT, intBound := bound } a c f
+      .list [ofBool fl.valid, ofBool fl.closed, ofBool fl.rootOk, encTV fl.verdict]
+    | _, _, _, _, _, _ => bad
+  -- validity of a (possibly open) tree only: (valid closed root-symbol)
+  | [.atom "valid", g, t] =>
+    match decodeGrammar g, decodeTree t with
+    | some g, some t => .list [ofBool (t.valid g), ofBool t.closed, ofStr t.sym]
+    | _, _ => bad
   | _ => bad
 
 end IslaVerif.Driver.SemD
